@@ -189,6 +189,17 @@ def cases(tier, seed):
                 for cb in combos:
                     k += 1
                     yield ["ellann", H, W, s, c, origins[k % len(origins)], cb, 6 if quick else 12]
+    # ---- elongated frames with strongly anisotropic pixel scales (a shortcut that is only right for square pixels or that confuses
+    # the two scales - e.g. a bounding box computed with one scale for both axes - needs many pixels along the FINE axis to show)
+    long_shapes = [(3, 17), (17, 3), (5, 21), (9, 25)] if quick else [(3, 17), (17, 3), (5, 21), (21, 5), (9, 25), (25, 9), (4, 30)]
+    for (H, W) in long_shapes:
+        for s in ([1.0, 0.25], [0.25, 1.0], [0.8, 0.3]):
+            for cf in cfr[:2]:
+                c = [_f(cf[0] * s[0]), _f(cf[1] * s[1])]
+                o = origins[(H + W) % len(origins)]
+                yield ["circ", H, W, s, c, o]
+                yield ["ann", H, W, s, c, o]
+                yield ["ell", H, W, s, c, o, qs[0], angs[1 % len(angs)]]
 
 
 # ----------------------------------------------------------------------------------------------- reference
